@@ -26,7 +26,7 @@ impl Sbox for UserB {
 
 // ---------------------------------------------------------------------------------------------------------- leaves
 
-//@ harness name=magma_gen_exp_sbox prop=C07,C20 tier=quick bits=512 est=20 desc="L: gen_exp_sbox on a symbolic 8x16 table of 4-bit values (all 16^128 tables): every expanded entry out[i][j + 16k] == sbox[2i][j] + 16*sbox[2i+1][k], i.e. low nibble through table 2i and high nibble through table 2i+1; no overflow, no out-of-bounds"
+//@ harness name=magma_gen_exp_sbox prop=C07,C20 tier=quick bits=512 est=25 desc="L: gen_exp_sbox on a symbolic 8x16 table of 4-bit values (all 16^128 tables): every expanded entry out[i][j + 16k] == sbox[2i][j] + 16*sbox[2i+1][k], i.e. low nibble through table 2i and high nibble through table 2i+1; no overflow, no out-of-bounds"
 verif_harness! {
     name: magma_gen_exp_sbox,
     bytes: 64 + 2,
@@ -65,13 +65,13 @@ fn leaf<S: Sbox>(inp: &[u8; 8], sb: &r::Sboxes) -> Option<bool> {
     Some(S::g(a, k) == r::g(sb, a, k))
 }
 
-//@ harness name=magma_leaf_tc26 prop=C07,C20 tier=quick bits=64 est=5 desc="L: Tc26: apply_sbox(a) == oracle t(a) (eight 4-bit substitutions pi_0..pi_7) and g(a,k) == t(a+k)<<<11 for all a, k"
+//@ harness name=magma_leaf_tc26 prop=C07,C20 tier=quick bits=64 est=10 desc="L: Tc26: apply_sbox(a) == oracle t(a) (eight 4-bit substitutions pi_0..pi_7) and g(a,k) == t(a+k)<<<11 for all a, k"
 verif_harness! {
     name: magma_leaf_tc26,
     bytes: 8,
     prop: |inp| { leaf::<Tc26>(inp, &r::TC26) }
 }
-//@ harness name=magma_leaf_test prop=C07,C20 tier=quick bits=64 est=5 desc="L: TestSbox: apply_sbox / g vs oracle t / g for all a, k"
+//@ harness name=magma_leaf_test prop=C07,C20 tier=quick bits=64 est=10 desc="L: TestSbox: apply_sbox / g vs oracle t / g for all a, k"
 verif_harness! {
     name: magma_leaf_test,
     bytes: 8,
@@ -83,31 +83,31 @@ verif_harness! {
     bytes: 8,
     prop: |inp| { leaf::<CryptoProA>(inp, &r::CRYPTOPRO_A) }
 }
-//@ harness name=magma_leaf_cpb prop=C07,C20 tier=quick bits=64 est=5 desc="L: CryptoProB: apply_sbox / g vs oracle t / g for all a, k"
+//@ harness name=magma_leaf_cpb prop=C07,C20 tier=quick bits=64 est=10 desc="L: CryptoProB: apply_sbox / g vs oracle t / g for all a, k"
 verif_harness! {
     name: magma_leaf_cpb,
     bytes: 8,
     prop: |inp| { leaf::<CryptoProB>(inp, &r::CRYPTOPRO_B) }
 }
-//@ harness name=magma_leaf_cpc prop=C07,C20 tier=quick bits=64 est=5 desc="L: CryptoProC: apply_sbox / g vs oracle t / g for all a, k"
+//@ harness name=magma_leaf_cpc prop=C07,C20 tier=quick bits=64 est=10 desc="L: CryptoProC: apply_sbox / g vs oracle t / g for all a, k"
 verif_harness! {
     name: magma_leaf_cpc,
     bytes: 8,
     prop: |inp| { leaf::<CryptoProC>(inp, &r::CRYPTOPRO_C) }
 }
-//@ harness name=magma_leaf_cpd prop=C07,C20 tier=quick bits=64 est=5 desc="L: CryptoProD: apply_sbox / g vs oracle t / g for all a, k"
+//@ harness name=magma_leaf_cpd prop=C07,C20 tier=quick bits=64 est=10 desc="L: CryptoProD: apply_sbox / g vs oracle t / g for all a, k"
 verif_harness! {
     name: magma_leaf_cpd,
     bytes: 8,
     prop: |inp| { leaf::<CryptoProD>(inp, &r::CRYPTOPRO_D) }
 }
-//@ harness name=magma_leaf_usera prop=C07,C20 tier=quick bits=64 est=5 desc="L: user-supplied set A (eight permutations not bundled with the crate): apply_sbox / g vs oracle t / g for all a, k"
+//@ harness name=magma_leaf_usera prop=C07,C20 tier=quick bits=64 est=10 desc="L: user-supplied set A (eight permutations not bundled with the crate): apply_sbox / g vs oracle t / g for all a, k"
 verif_harness! {
     name: magma_leaf_usera,
     bytes: 8,
     prop: |inp| { leaf::<UserA>(inp, &r::USER_A) }
 }
-//@ harness name=magma_leaf_userb prop=C07,C20 tier=quick bits=64 est=5 desc="L: user-supplied set B (eight arbitrary, non-bijective 4-bit tables): apply_sbox / g vs oracle t / g for all a, k"
+//@ harness name=magma_leaf_userb prop=C07,C20 tier=quick bits=64 est=10 desc="L: user-supplied set B (eight arbitrary, non-bijective 4-bit tables): apply_sbox / g vs oracle t / g for all a, k"
 verif_harness! {
     name: magma_leaf_userb,
     bytes: 8,
@@ -147,14 +147,14 @@ fn d_rt<S: Sbox>(inp: &[u8; 40], enc_first: bool) -> Option<bool> {
     Some(b.0 == blk)
 }
 
-//@ harness name=magma_d_enc_tc26 prop=C07,C20 tier=quick bits=320 est=90 desc="D: Magma::new(key).encrypt_block(b) == oracle GOST R 34.12-2015 Magma encryption, all 2^256 keys, all 2^64 blocks"
+//@ harness name=magma_d_enc_tc26 prop=C07,C20 tier=quick bits=320 est=95 desc="D: Magma::new(key).encrypt_block(b) == oracle GOST R 34.12-2015 Magma encryption, all 2^256 keys, all 2^64 blocks"
 verif_harness! {
     name: magma_d_enc_tc26,
     bytes: 40,
     unwind: 34,
     prop: |inp| { d_enc::<Tc26>(inp, &r::TC26) }
 }
-//@ harness name=magma_d_dec_tc26 prop=C07,C20 tier=quick bits=320 est=145 desc="D: Magma::new(key).decrypt_block(b) == oracle Magma decryption, all keys, all blocks"
+//@ harness name=magma_d_dec_tc26 prop=C07,C20 tier=quick bits=320 est=170 desc="D: Magma::new(key).decrypt_block(b) == oracle Magma decryption, all keys, all blocks"
 verif_harness! {
     name: magma_d_dec_tc26,
     bytes: 40,
